@@ -61,12 +61,12 @@ def oracle(case, recs, out, stats):
                     continue
                 for key in c._impl.data:
                     if key in c._impl.input_keys:
-                        if list(g.predecessors((c._impl, key))):
+                        if (c._impl, key) in g and list(g.predecessors((c._impl, key))):
                             out.fail("input element %s has predecessors" % node_s(cid, key), hist)
                         continue
                     want = rec.expected_preds((cid, key), lambda x: cached[x])
-                    if want is None:
-                        continue
+                    if want is None or (c._impl, key) not in g:
+                        continue     # a held element missing from the graph was reported above
                     got = set()
                     for p in g.predecessors((c._impl, key)):
                         got.add(("obj", impl.cid_of(p[0])) if len(p) == 1 else ("elem", (impl.cid_of(p[0]), p[1])))
